@@ -142,6 +142,39 @@ theorem getH_of_mem {hs : List Hd} (h : Regs hs) {a : Hd} (ha : a ∈ hs) : getH
     obtain ⟨hb, eb⟩ := getH_some e
     rw [regs_inj h hb ha eb]
 
+theorem getH_putH_self {hs : List Hd} (hr : Regs hs) (y : Hd) : getH (putH hs y) y.reg = some y :=
+  getH_of_mem (regs_putH hr y) (mem_putH.mpr (Or.inl rfl))
+
+theorem getH_putH_other {hs : List Hd} (hr : Regs hs) (y : Hd) {r : Nat} (hne : r ≠ y.reg) :
+    getH (putH hs y) r = getH hs r := by
+  cases e : getH hs r with
+  | none =>
+    cases e' : getH (putH hs y) r with
+    | none => rfl
+    | some x =>
+      obtain ⟨hx, hxr⟩ := getH_some e'
+      rcases mem_putH.mp hx with rfl | ⟨a, _⟩
+      · exact absurd hxr.symm hne
+      · exact absurd hxr (getH_none e x a)
+  | some x =>
+    obtain ⟨hx, hxr⟩ := getH_some e
+    rw [← hxr]
+    exact getH_of_mem (regs_putH hr y) (mem_putH.mpr (Or.inr ⟨hx, by rw [hxr]; exact hne⟩))
+
+theorem getH_delH_other {hs : List Hd} (hr : Regs hs) {r r' : Nat} (hne : r ≠ r') :
+    getH (delH hs r') r = getH hs r := by
+  cases e : getH hs r with
+  | none =>
+    cases e' : getH (delH hs r') r with
+    | none => rfl
+    | some x =>
+      obtain ⟨hx, hxr⟩ := getH_some e'
+      exact absurd hxr (getH_none e x (mem_delH.mp hx).1)
+  | some x =>
+    obtain ⟨hx, hxr⟩ := getH_some e
+    rw [← hxr]
+    exact getH_of_mem (regs_delH hr r') (mem_delH.mpr ⟨hx, by rw [hxr]; exact hne⟩)
+
 /-! ## slots -/
 
 theorem slot_ge (s : Sys) (i : Nat) (h : ¬ i < s.n) : s.slot i = dummySlot := by
